@@ -534,7 +534,14 @@ namespace
 	  Dwarf_Files *files;
 	  size_t nfiles;
 	  if (dwarf_getsrcfiles (&cudie, &files, &nfiles) != 0)
-	    throw_libdw ();
+	    {
+	      // A unit without line table makes libdw fail without
+	      // setting an error code.
+	      if (int err = dwarf_errno ())
+		throw_libdw (err);
+	      throw std::runtime_error
+		  ("the unit of this DIE has no source file table");
+	    }
 
 	  Dwarf_Word uval;
 	  if (dwarf_formudata (&attr, &uval) != 0)
